@@ -176,6 +176,9 @@ func genCond(r *Run, table map[string]Row, uuids []string) CondJ {
 		if val.K == 'S' && r.Rng.Intn(3) == 0 { // extend
 			val.S = append([]Atom{AS("zz")}, val.S...)
 		}
+		if val.K == 'S' && len(val.S) > 0 && r.Rng.Intn(4) == 0 { // an element written twice: the same set
+			val.S = append(val.S, val.S[r.Rng.Intn(len(val.S))])
+		}
 		if val.K == 'S' && len(val.S) > 1 && r.Rng.Intn(2) == 0 { // permute
 			r.Rng.Shuffle(len(val.S), func(i, j int) { val.S[i], val.S[j] = val.S[j], val.S[i] })
 		}
